@@ -856,6 +856,73 @@ def model_lineages(driver):
     return {k: v.split() for k, v in zip(keys, rep)}
 
 
+def second_use_cases(ctx, replay=None):
+    """What a call leaves behind shows at the NEXT use of the same objects:
+    * the physical plan a dry run returned is the caller's object from then on: `run(physical, output=redirected)` must leave it
+      as it is (deep snapshot), and a second such run must work and give the same value;
+    * a Plan that is still EMPTY: `run(plan, output=<constants>)`, a dry run of it, and a run that fails in `transform_physical`
+      leave it empty, and the plan a dry run returns is not the caller's object."""
+    rng = random.Random(ctx.seed * 71 + 13)
+    viol, done = [], 0
+    n = 1 if replay else (60 if ctx.tier == "quick" else 800)
+    for k in range(n):
+        if replay is not None and replay.get("second_use") == "empty":
+            break
+        case = replay["case"] if replay else gen_run_case(rng, ctx.tier)
+        case = dict(case, dry_run=True, failing={}, transform=None)
+        if case["registry"] is not None:
+            case["registry"] = {i: dict(cfg, fail=None) for i, cfg in case["registry"].items()}
+        plan, registry, output, N, stores = build_case(case)
+        res, exc = do_run(case, plan, registry, output)
+        if exc is not None or output is None:
+            continue
+        phys, redirected = res
+        before, keep = snapshot(phys, None)
+        vals = []
+        what = None
+        for attempt in (1, 2):
+            try:
+                vals.append(canon_value(uberjob.run(phys, output=redirected, progress=None, max_workers=case["workers"])))
+            except Exception as e:      # noqa: BLE001
+                what = f"run #{attempt} of the physical plan a dry run returned raised {canon_exc(e)}"
+                break
+            after, keep2 = snapshot(phys, None)
+            d = diff(before, after)
+            if d:
+                what = f"run #{attempt} of the physical plan a dry run returned changed that plan: {d}"
+                break
+        if what is None and len(vals) == 2 and vals[0] != vals[1]:
+            what = f"two runs of the same physical plan returned {vals[0]} and then {vals[1]}"
+        done += 1
+        if what:
+            viol.append({"property": "C13", "what": what, "kind": "second_use", "case": case, "second_use": "physical"})
+            break
+    if not viol and (replay is None or replay.get("second_use") == "empty"):
+        def boom(plan, output):
+            raise ValueError("transform_physical fails")
+        for how, kw in (("run(output=5)", dict(output=5)), ("run(output=[1, {'a': (2, None)}])", dict(output=[1, {"a": (2, None)}])),
+                        ("dry run (output=5)", dict(output=5, dry_run=True)), ("dry run (no output)", dict(dry_run=True)),
+                        ("run failing in transform_physical", dict(output=7, transform_physical=boom))):
+            plan = uberjob.Plan()
+            before, keep = snapshot(plan, None)
+            res = None
+            try:
+                res = uberjob.run(plan, progress=None, **kw)
+            except ValueError:
+                pass
+            after, keep2 = snapshot(plan, None)
+            d = diff(before, after)
+            done += 1
+            if d:
+                viol.append({"property": "C13", "what": f"an EMPTY plan, {how}: the caller's plan changed: {d}", "kind": "second_use", "second_use": "empty"})
+                break
+            if kw.get("dry_run") and res is not None and res[0] is plan:
+                viol.append({"property": "C13", "what": f"an EMPTY plan, {how}: the physical plan returned IS the caller's Plan object",
+                             "kind": "second_use", "second_use": "empty"})
+                break
+    return viol, done
+
+
 def explore(ctx):
     rng = random.Random(ctx.seed * 6151 + 13)
     q = ctx.tier == "quick"
@@ -938,6 +1005,10 @@ def explore(ctx):
                     if len(dis) >= 3:
                         break
         cov["samples"].append({"kind": "plan_copy", "line": pend[0][0]})
+    if not viol:
+        v2, n2 = second_use_cases(ctx)
+        viol += v2
+        cov["second_use_cases"] = n2
     cov["outcomes"] = outcomes
     cov["distinct_nontrivial"] = len(lineages)
     cov["distinct_outcomes"] = len(outcomes)
@@ -975,6 +1046,9 @@ def replay(ctx, payload):
         v, d, _ = check_render(w["case"], {})
     elif kind == "concurrent":
         v, d = check_concurrent(w["case"], w.get("threads", 3))
+    elif kind == "second_use":
+        vv, _ = second_use_cases(ctx, replay=w)
+        return vv[0]["what"] if vv else None
     elif kind in ("plan_copy_monitor", "registry_copy_monitor"):
         v = []
         (run_plan_ops if kind.startswith("plan") else run_reg_ops)(w["case"], monitor=v)
